@@ -200,6 +200,22 @@ fn run_entry<D: Dialect>(a: &mut Allocator, d: &D, p: NodePtr, e: NodePtr, budge
     run_program_with_pre_eval(a, d, p, e, budget, Some(pre))
 }
 
+/// the interpreter's own high-water marks of its three stacks (feature `counters`, diag build only)
+#[cfg(feature = "diag")]
+fn run_stacks(a: &mut Allocator, fl: ClvmFlags, p: NodePtr, e: NodePtr, budget: Cost) -> (Response, Option<Value>) {
+    let d = ChiaDialect::new(fl);
+    let (c, r) = clvmr::run_program::run_program_with_counters(a, &d, p, e, budget);
+    let v = json!({"val": c.val_stack_usage, "env": c.env_stack_usage, "op": c.op_stack_usage,
+                   "max_atoms": c.max_atom_count, "max_pairs": c.max_pair_count, "max_heap": c.max_heap_size});
+    (r, Some(v))
+}
+
+#[cfg(not(feature = "diag"))]
+fn run_stacks(a: &mut Allocator, fl: ClvmFlags, p: NodePtr, e: NodePtr, budget: Cost) -> (Response, Option<Value>) {
+    let d = ChiaDialect::new(fl);
+    (run_program(a, &d, p, e, budget), None)
+}
+
 // ---------------------------------------------------------------------------
 // one recorded run
 
@@ -217,6 +233,8 @@ struct Cfg {
     encoding: u8,
     /// noise: allocate unrelated nodes / run an unrelated program first
     history: u64,
+    /// run through run_program_with_counters and report the stack high-water marks (diag build)
+    stacks: bool,
     rels: Vec<(&'static str, String)>,
 }
 
@@ -232,6 +250,7 @@ impl Cfg {
             heap_limit: None,
             encoding: 0,
             history: 0,
+            stacks: false,
             rels: vec![],
         }
     }
@@ -374,7 +393,13 @@ fn run_one(out: &mut Out, case: u64, prog: &Value, env: &Value, cfg: &Cfg, line_
         })));
         let fl = flags(cfg2.flags);
         F5_BYTES.with(|c| c.set(0));
+        let mut stacks: Option<Value> = None;
         let (result, wit) = match cfg2.dialect {
+            "chia" if cfg2.stacks => {
+                let (r, st) = run_stacks(&mut a, fl, p, e, cfg2.budget);
+                stacks = st;
+                (r, vec![])
+            }
             "chia" => {
                 let d = ChiaDialect::new(fl);
                 let w = Witness { inner: &d, log: RefCell::new(vec![]), unaware: false };
@@ -410,7 +435,11 @@ fn run_one(out: &mut Out, case: u64, prog: &Value, env: &Value, cfg: &Cfg, line_
             m.1 = m.1.max(a.pair_count());
             m.2 = m.2.max(a.heap_size());
         }
-        json!({"al": al, "wit": wit, "end": end, "f5": F5_BYTES.with(|c| c.get())})
+        let mut res = json!({"al": al, "wit": wit, "end": end, "f5": F5_BYTES.with(|c| c.get())});
+        if let Some(st) = stacks {
+            res["stacks"] = st;
+        }
+        res
     });
     verif_hook::set_observer(None);
     let r = match res {
@@ -437,6 +466,14 @@ fn run_one(out: &mut Out, case: u64, prog: &Value, env: &Value, cfg: &Cfg, line_
     out.emit(&json!({"ev": "sample", "case": case, "variant": cfg.variant, "atoms": m.0, "pairs": m.1, "heap": m.2,
         "limit": cfg.heap_limit.map(|h| h as i64).unwrap_or(-1), "f5": r.get("f5").and_then(|x| x.as_u64()).unwrap_or(0)}));
     *line_no += 1;
+    if let Some(st) = r.get("stacks") {
+        let mut e = st.clone();
+        e["ev"] = json!("stacks");
+        e["case"] = json!(case);
+        e["variant"] = json!(cfg.variant);
+        out.emit(&e);
+        *line_no += 1;
+    }
     let mut end = r["end"].clone();
     end["ev"] = json!("end");
     end["case"] = json!(case);
@@ -1393,7 +1430,7 @@ fn main() {
                 }
             } else {
                 let classic_only = profile == "C01";
-                let mut pg = PG { r: &mut r, newer: !classic_only, guards: true, crypto: !classic_only && profile != "C08x", unknown: true };
+                let mut pg = PG { r: &mut r, newer: !classic_only, guards: true, crypto: !classic_only && profile != "C08x" && profile != "STK", unknown: true };
                 let depth = 1 + pg.r.below(4) as u32;
                 let p = match profile.as_str() {
                     "C05" if pg.r.chance(1, 8) => {
@@ -1472,6 +1509,13 @@ fn main() {
                     let m = *r.pick(&[c, c.saturating_sub(1), c.saturating_add(1), c / 2 + 1]);
                     run_one(&mut out, case, &prog, &env, &Cfg::new("budget", "chia", 0, m.max(1)), &mut line);
                 }
+            }
+            // STK (diag build): stack high-water marks of run_program_with_counters, no property attached
+            "STK" => {
+                let budget = if r.chance(1, 4) { 1 + r.below(30000) } else { 0 };
+                let mut c = Cfg::new("base", "chia", base_flags, budget);
+                c.stacks = true;
+                run_one(&mut out, case, &prog, &env, &c, &mut line);
             }
             // C02: budgets
             "C02" => {
